@@ -9,7 +9,7 @@ CORR_VO = 'Corr/Parser.vo'
 TRUSTED_COMMON = [
 	'harness/tables/headers.py, parser.py (T1: HEADER_RE class, HEADER spelling/join tables, Trailer.forbidden_headers, int digit limit, Content-Length-overwrite probe)',
 	'harness/parser_rec.py (T3: subclasses of the two state machines and class-attribute wrappers installed in the harness process record every (callee argument -> result) the implementation evaluated; T2: per-call observations compared inside Coq by Corr/Parser.v)',
-	'callees of the parser model that are parameters of every theorem: start-line parser + on_startline_complete hooks, header-semantics hooks of on_headers_complete after the Host-present check, Body.decompress, RFC 2047 decoding in Headers.__getitem__, Trailer element parsing',
+	'callees of the parser model that are parameters of every theorem: start-line parser + on_startline_complete hooks, header-semantics hooks of on_headers_complete after the Host-present check, Body.decompress, RFC 2047 decoding in Headers.__getitem__, Trailer element parsing, and c_connect (does ClientStateMachine.remove_invalid_headers strip the framing fields of the message with this status line: probed black-box by the harness subclass with sentinel fields)',
 	'Lib/PyInt.v models CPython int() (validated by CInt10/CInt16 cases, not verified)',
 ]
 
